@@ -96,7 +96,7 @@ pub const URI_POOL: [&str; 12] = [
 ];
 
 /// Header lines that are accepted and change nothing the tag check depends on.
-pub const BENIGN_HEADERS: [&str; 26] = [
+pub const BENIGN_HEADERS: [&str; 29] = [
     "Content-Type: application/json",
     "Content-Type: text/plain",
     "content-type:application/json",
@@ -124,6 +124,10 @@ pub const BENIGN_HEADERS: [&str; 26] = [
     "X-\u{dc}n\u{ef}: caf\u{e9} \u{20ac}5",
     "X-Emoji: \u{1F600}",
     "X-Custom: na\u{ef}ve",
+    // connection options mean nothing to this parser: requests that follow are requests
+    "Connection: close",
+    "connection: Keep-Alive, Close",
+    "Connection: keep-alive",
 ];
 
 pub fn pad_header(len: usize, tag: usize) -> Vec<u8> {
